@@ -24,6 +24,14 @@ def _py(spec):
         return spec['v']
     if t == 'rgb':
         return (spec['r'], spec['g'], spec['b'])
+    if t == 'rgbl':
+        return [spec['r'], spec['g'], spec['b']]
+    if t == 'bool':
+        return bool(spec['v'])
+    if t == 'float':
+        return float(spec['v'])
+    if t == 'obj':
+        return {}
     return 'g%d' % spec['n']
 
 
@@ -64,8 +72,7 @@ def _make(cfg, cls):
 
 def run(ctx):
     from ak.color import CHText, ColorFmt, ColorBytes
-    ctx.assumptions += ['colour values: None, the 8 names, ints, (r,g,b) tuples, "gN" strings (lists and floats are '
-                        'outside the documented domain); texts contain no ESC character']
+    ctx.assumptions += ['colour values: None, the 8 names, ints incl. bools, (r,g,b) tuples and lists, "gN" strings; floats and other objects are invalid values; texts contain no ESC character']
     cfgs = []
     for sw in ('fg', 'bg', 'cross'):
         r = ctx.tlc('color/SGRCases.tla',
@@ -77,6 +84,7 @@ def run(ctx):
         cfgs += sorted(got, key=lambda c: json.dumps(c, sort_keys=True))
     cases, meta = [], []
     valid_cfgs = []
+    n_first = {}
     nconf = 0
     for n, ent in enumerate(cfgs):
         cfg = ent['cfg']
@@ -95,6 +103,7 @@ def run(ctx):
         if o1 != 'ok' or o2 != 'ok':
             continue                      # already reported above
         valid_cfgs.append(cfg)
+        n_first[json.dumps(cfg, sort_keys=True)] = str(fmt('ab'))
         text = TEXTS[n % len(TEXTS)] if n % 7 else 'ab'
         chunk = fmt(text)
         s = str(chunk)
@@ -105,6 +114,20 @@ def run(ctx):
                       'bitems': _items(b), 'stripped': [ord(c) for c in CHText.strip_colors(s)],
                       'plain': [ord(c) for c in chunk.plain_text()]})
         meta.append({'kind': 'chunk', 'cfg': cfg, 'text': text, 'str': s})
+    # second pass over the constructors: the outcome must not depend on which values were used before
+    for ent in cfgs:
+        cfg = ent['cfg']
+        for cls in (ColorFmt, ColorBytes):
+            outc, fmt = _make(cfg, cls)
+            want = 'ok' if ent['valid'] else 'ValueError'
+            if outc != want:
+                ctx.violation({'kind': 'ctor', 'cfg': cfg, 'cls': cls.__name__},
+                              '%s(%r, %r) -> %s when constructed again after all the other values, the specification says %s' % (
+                                  cls.__name__, _py(cfg['fg']), _kwargs(cfg), outc, want))
+            elif outc == 'ok' and ent['valid'] and cls is ColorFmt and n_first.get(json.dumps(cfg, sort_keys=True)) not in (None, str(fmt('ab'))):
+                ctx.violation({'kind': 'chunk', 'cfg': cfg, 'text': 'ab'},
+                              'the same configuration gives %r now and gave %r the first time' % (
+                                  str(fmt('ab')), n_first[json.dumps(cfg, sort_keys=True)]))
     # multi-chunk texts: colour must not bleed from one chunk into the next
     ntext = 3000 if ctx.quick else 40000
     for i in range(ntext):
@@ -198,7 +221,8 @@ def replay(ctx, case):
         def ok(s):
             t = s['t']
             return (t == 'none' or (t == 'name' and 0 <= s['n'] <= 7) or (t == 'int' and 0 <= s['v'] <= 255)
-                    or (t == 'rgb' and all(0 <= s[x] <= 5 for x in 'rgb')) or (t == 'gray' and 0 <= s['n'] <= 23))
+                    or (t in ('rgb', 'rgbl') and all(0 <= s[x] <= 5 for x in 'rgb')) or (t == 'gray' and 0 <= s['n'] <= 23)
+                    or t == 'bool')
         want = 'ok' if (cfg['nocolor'] or (ok(cfg['fg']) and ok(cfg['bg']))) else 'ValueError'
         return None if outc == want else '%s -> %s, expected %s' % (case['cls'], outc, want)
     if case['kind'] == 'chunk':
